@@ -266,7 +266,64 @@ class Path:
             ob.result, ob.backend = "discharged", "simplifier"
             self.obligations.append(ob)
             return
+        if z3.is_expr(goal) and self.goal_is_a_hypothesis(goal):
+            # the goal (or each of its conjuncts) is literally one of the path's hypotheses up to the names of bound variables, e.g. a
+            # class invariant over state this path never touched: discharged without a solver (no instantiation search, no timing luck)
+            ob = Obligation(name, [], z3.BoolVal(True), kind, line, self.pid)
+            ob.result, ob.backend = "discharged", "identity(hypothesis)"
+            self.obligations.append(ob)
+            return
         self.obligations.append(Obligation(name, list(self.pc), goal, kind, line, self.pid))
+
+    _akeys = {}
+
+    @staticmethod
+    def alpha_key(e):
+        """structural key of a term that ignores the names of bound variables (quantifier bodies use de Bruijn indices)"""
+        memo = Path._akeys
+        stack, out = [(e, False)], {}
+        while stack:
+            x, done = stack.pop()
+            i = x.get_id()
+            if i in memo:
+                continue
+            if z3.is_quantifier(x):
+                kids = [x.body()]
+            elif z3.is_app(x):
+                kids = x.children()
+            else:
+                kids = []
+            if not done:
+                stack.append((x, True))
+                for k in kids:
+                    if k.get_id() not in memo:
+                        stack.append((k, False))
+                continue
+            if z3.is_quantifier(x):
+                memo[i] = hash(("Q", x.is_forall(), x.num_vars(), tuple(x.var_sort(j).name() for j in range(x.num_vars())), memo[x.body().get_id()]))
+            elif z3.is_var(x):
+                memo[i] = hash(("V", z3.get_var_index(x), x.sort().name()))
+            elif z3.is_app(x):
+                d = x.decl()
+                memo[i] = hash(("A", d.name(), d.kind(), x.sort().name(), x.sexpr() if not kids and d.kind() != z3.Z3_OP_UNINTERPRETED else "",
+                                tuple(memo[k.get_id()] for k in kids)))
+            else:
+                memo[i] = hash(("X", x.sexpr()))
+        return memo[e.get_id()]
+
+    def goal_is_a_hypothesis(self, goal):
+        if not hasattr(self, "_hyp_keys") or self._hyp_keys_n != len(self.pc):
+            keys = getattr(self, "_hyp_keys", set())
+            start = getattr(self, "_hyp_keys_n", 0)
+            if start > len(self.pc):
+                keys, start = set(), 0
+            for h in self.pc[start:]:
+                for c in (h.children() if z3.is_and(h) else [h]):
+                    keys.add(Path.alpha_key(c))
+                keys.add(Path.alpha_key(h))
+            self._hyp_keys, self._hyp_keys_n = keys, len(self.pc)
+        parts = goal.children() if z3.is_and(goal) else [goal]
+        return all(Path.alpha_key(c) in self._hyp_keys for c in parts)
 
     def assume(self, *facts):
         if ops._pending_axioms:
